@@ -85,6 +85,8 @@ type sbE2E struct {
 	VCS    string   `json:"vcs,omitempty"`
 	// architectures come from the configuration's `archs:` list (one of them spelled twice through an alias), no --arch
 	ConfigArchs bool `json:"config_archs,omitempty"`
+	// `apko publish` to an in-process registry instead of `apko build` (sbom_publish.go)
+	Publish bool `json:"publish,omitempty"`
 }
 type sbCase struct {
 	Kind        string    `json:"kind"` // direct | e2e
